@@ -5,6 +5,7 @@
 //	node      assembled node start matrix + the clauses judged at the action, on the running node   (node_test.go)
 //	flags     secrets on the command line, moved keys, on the assembled node                          (flags_test.go)
 //	outbound  strict HTTP client, its callers, redirect targets, against in-process listeners         (outbound_test.go)
+//	gating    every insecure single setting under every value of every other configuration key (keys by reflection)   (gating_test.go)
 //	engine    single-engine Configure / ServerConfig.Load products                                    (engine_test.go)
 //
 // model.go holds the reference predicate. VERIF_C20_ONLY=node,flags,… restricts the sections (debugging).
@@ -40,6 +41,9 @@ func TestVerifC20(t *testing.T) {
 		"deviations (incl. every public-URL class), then the full product strictmode x url x tls x crypto.storage x storage.sql.connection x " +
 		"auth.contractvalidators x auth.irma.schememanager x didmethods (x jsonld allow list, thorough); a case = one distinct configuration; on every node " +
 		"that started, the dummy means (internal API), the JSON-LD loader, the IAM client and the did:web resolver are exercised against in-process listeners. " +
+		"(gating) every configuration key of the node (koanf-tagged fields of core.ServerConfig and of every registered engine's Config() by reflection, united with the " +
+		"flags of the server command) x a small value set by type x every insecure single setting of the matrix and the strict baseline with dummy means; " +
+		"oracle unchanged: strict and insecure => refused whatever the other option says. " +
 		"(flags) every flag registered on the `server` command (VisitAll) ending in token/password: --f=v, --f v, `nuts config --f=v`, environment, file, both modes; " +
 		"every moved key by environment, file, command line. " +
 		"(outbound) every constructor of the strict HTTP client and every caller wrapping one x strict x first hop {https,http} x host {domain, IP, reserved} x " +
@@ -60,7 +64,7 @@ func TestVerifC20(t *testing.T) {
 			var c outCase
 			r.ReplayCase(&c)
 			judgeOut(r, c, runOutCase(c))
-		case probe.Kind == "cfg" || probe.Kind == "observed-url":
+		case probe.Kind == "cfg" || probe.Kind == "observed-url" || probe.Kind == "gating":
 			var c nodeCase
 			r.ReplayCase(&c)
 			needDummyVP(t)
@@ -82,6 +86,9 @@ func TestVerifC20(t *testing.T) {
 	}
 	if want("flags") {
 		sectionFlags(t, r)
+	}
+	if want("gating") {
+		sectionGating(t, r)
 	}
 	if want("node") {
 		sectionNode(t, r)
